@@ -105,7 +105,7 @@ def _describe(e, init, gtf, gm):
             idx = "ge2^32" if big else "any"
         d = dict(ins="GTF", name=name, dim=dim, pres=pres, idx=idx, dest=dest, obs=obs, defined=sel in gtf, b=b)
         if name == "InputContractOutputIndex":
-            # the IMPLEMENTED rule of this selector (a recorded finding: it is not the documented field): the position of the first
+            # the IMPLEMENTED rule of this selector (a recorded finding: it is not the documented field): the position of an
             # Output::Contract whose input_index is $rB; InputNotFound when there is none; InvalidMetadataIdentifier for $rB >= 2^16.
             # `rule` says whether the observation follows that rule exactly — only then does it fall into a known class.
             outs = tx.get("outputs", [])
@@ -121,7 +121,8 @@ def _describe(e, init, gtf, gm):
                 got = e.get("val")
                 if got is None:
                     got = (e.get("regs") or {}).get(str(ra))
-                follows = got is not None and int(got) == pos[0]
+                # (a checked transaction has exactly one such output; the generators also build transactions with several)
+                follows = got is not None and int(got) in pos
             d["rule"] = follows
         return d
     if op == 0x71:
@@ -300,10 +301,23 @@ def run(pid, tier):
         # the Init event each event belongs to
         init_of, cur = {}, None
         inits = 0
+        badidx = {i for i, _ in bad}
+        regfile = None
         for i, e in enumerate(events):
             if e.get("ev") == "Init":
                 cur = e
                 inits += 1
+                regfile = [str(x) for x in e.get("regs", [])]
+            elif e.get("ev") == "Step" and regfile:
+                # the register file after the step (the Step event logs differences only): needed to judge the answer of a
+                # deviating GTF whose destination happened to hold the answer already
+                for k, v in (e.get("poke") or {}).items():
+                    regfile[int(k)] = str(v)
+                for k, v in (e.get("regs") or {}).items():
+                    regfile[int(k)] = str(v)
+                if i in badidx and e.get("out") == "proceed":
+                    ra = (int(e.get("word") or "0", 16) >> 18) & 63
+                    e["val"] = regfile[ra]
             init_of[i] = cur
         by_class = {}
         for i, what in bad:
